@@ -67,7 +67,10 @@ func processHints(query sql.ISelect, hints *storage.SelectHints) sql.ISelect {
 		)
 	}
 	if rangeVectors[hints.Func] && hints.Step > hints.Range {
-		msInStep := sql.NewRawObject(fmt.Sprintf("timestamp_ms %% %d", hints.Step))
+		// the selector is read at hints.Start + hints.Range + k * hints.Step: the position of a sample
+		// inside a step is taken relative to that grid, not to multiples of the step
+		phase := ((hints.Start+hints.Range)%hints.Step + hints.Step) % hints.Step
+		msInStep := sql.NewRawObject(fmt.Sprintf("(timestamp_ms - %d) %% %d", phase, hints.Step))
 		query.AndWhere(sql.Or(
 			sql.Eq(msInStep, sql.NewIntVal(0)),
 			sql.Ge(msInStep, sql.NewIntVal(hints.Step-hints.Range)),
